@@ -268,3 +268,40 @@ def run(shard, ctx):
             x.octave_up()
             ctx.check("octave: octave_up adds one", x.octave == max(0, o - 1) + 1, {"octave": o}, max(0, o - 1) + 1, x.octave)
         ctx.sample({"Note('C',0).octave_down()": 0})
+        # walks: any mix of the three octave operations on any name follows max(0, .) step by step and never touches
+        # the name, the channel or the velocity
+        rng = ctx.rng("octave-walk")
+        names = list(T.pure_names(3))
+        for w in range(80):
+            nm, o = rng.choice(names), rng.randint(0, 9)
+            x = Note(nm, o)
+            x.velocity, x.channel = rng.randint(1, 127), rng.randint(1, 15)
+            vc = (x.velocity, x.channel)
+            trail = []
+            for step in range(rng.randint(3, 14)):
+                k = rng.randrange(3)
+                if k == 0:
+                    d = rng.choice([-1, -1, -2, -3, -12, 1, 2, 5, 0])
+                    st, r = ctx.call(x.change_octave, d)
+                    exp = max(0, o + d)
+                    lab = "change_octave(%d)" % d
+                elif k == 1:
+                    st, r = ctx.call(x.octave_down)
+                    exp = max(0, o - 1)
+                    lab = "octave_down"
+                else:
+                    st, r = ctx.call(x.octave_up)
+                    exp = o + 1
+                    lab = "octave_up"
+                trail.append(lab)
+                good = st == "ok" and x.octave == exp and x.name == nm and (x.velocity, x.channel) == vc
+                ctx.check("octave: changing the octave never goes below octave 0" if k == 0 else
+                          "octave: octave_down stops at 0" if k == 1 else "octave: octave_up adds one", good,
+                          {"name": nm, "octave_before": o, "steps": list(trail)}, [nm, exp], [x.name, x.octave] if st == "ok" else repr(r),
+                          mechanism="octave-walk:" + lab.split("(")[0])
+                o = exp
+                x.octave = o        # the model continues from the expected state, so that one wrong step is one witness
+            exp_int = 12 * o + T.NAT[nm[0]] + T.net(nm)
+            ctx.check("octave: the pitch number follows the octave", int(x) == exp_int, {"name": nm, "steps": list(trail)}, exp_int, int(x),
+                      mechanism="octave-walk:int")
+            ctx.case(("octave-walk", nm, tuple(trail)))
